@@ -185,6 +185,16 @@ func (v *fnVC) fieldAddr(n *types.Named, fname string, base T) T {
 	return t
 }
 
+// ix(off, i) = off + i, kept behind an uninterpreted symbol so that quantifier triggers over element
+// addresses match syntactically (z3 reorders the arguments of +, which breaks matching on index sums).
+func (v *fnVC) ix(off, i T) T {
+	if off == "0" {
+		return i
+	}
+	v.P.add("ix", "(declare-fun ix (Int Int) Int)\n(assert (forall ((o Int) (i Int)) (! (= (ix o i) (+ o i)) :pattern ((ix o i)))))")
+	return app("ix", off, i)
+}
+
 func (v *fnVC) elemAddr(b, i T) T {
 	t := app("elem", b, i)
 	if strings.Contains(t, "q_") {
@@ -1250,7 +1260,7 @@ func (v *fnVC) instr(in ssa.Instruction) {
 		case *types.Slice:
 			s := v.val(x.X)
 			v.oblige("rte.index", exprText(x), and(app("<=", "0", idx), app("<", idx, app("slen_", s))), x.Pos())
-			v.define(x, v.elemAddr(app("sbase", s), app("+", app("soff", s), idx)))
+			v.define(x, v.elemAddr(app("sbase", s), v.ix(app("soff", s), idx)))
 		case *types.Pointer:
 			at := u.Elem().Underlying().(*types.Array)
 			if _, isConst := x.Index.(*ssa.Const); !isConst {
@@ -1756,6 +1766,13 @@ func (v *fnVC) sliceInstr(x *ssa.Slice) {
 			v.oblige("rte.slice", exprText(x), and(app("<=", "0", lo), app("<=", lo, hi), app("<=", hi, app("scap", s))), x.Pos())
 		}
 		v.define(x, app("mkS", app("sbase", s), app("+", app("soff", s), lo), app("-", hi, lo), app("-", app("scap", s), lo)))
+		if lo != "0" {
+			// element i of the new slice is element lo+i of the old one: stated over the index symbol so that
+			// facts quantified over the old slice's elements are found from the new slice's element terms
+			v.ix("1", "0")
+			r := v.vals[x]
+			v.assume(fmt.Sprintf("(forall ((i Int)) (! (= (ix (soff %[1]s) i) (ix (soff %[2]s) (+ %[3]s i))) :pattern ((ix (soff %[1]s) i))))", r, s, lo))
+		}
 	case *types.Pointer:
 		at := u.Elem().Underlying().(*types.Array)
 		hi := intLit(at.Len())
